@@ -172,6 +172,13 @@ func (ex *Exec) assert(c *Term, label string) {
 	}
 	nc := ex.tc.Not(c)
 	ex.sol.Define(nc)
+	// declare every input before opening the scope: a declaration made inside it (by the model extraction of a
+	// violation report) would be discarded by the pop while the term stays marked as defined
+	for _, in := range ex.inputs {
+		if in.term != nil {
+			ex.sol.Define(in.term)
+		}
+	}
 	ex.sol.send("(push 1)")
 	ex.sol.send("(assert " + ref(nc) + ")")
 	r := ex.sol.CheckSat()
